@@ -10,6 +10,7 @@ func init() {
 				Run: ruleWirePair("WIRE-BAMHDR", "sam.(*Header).EncodeBinary#DecodeBinary", "sam", "(*Header).EncodeBinary", "sam", "(*Header).DecodeBinary", nil)},
 			{Name: "TAB-AUX", What: "aux type widths agree between bam.jumps, sam.NewAux literals, sam.Aux.Value slices and the specification", Floor: 20, Run: ruleTabAux},
 			{Name: "ACCEPT-AGREE", What: "the aux types and array element types the BAM reader lets through = those sam.Aux.Value decodes = those the format defines (shared with C11)", Floor: 2, Run: ruleAcceptAgree},
+			{Name: "WIDEN-FIRST", What: "byte counts of the BAM record (4·n_cigar_op, name, sequence) are computed in int, not in the 16 or 32 bit type the count was read in (shared with C11; added after sixth-round seed C05-g)", Floor: 1, Run: ruleWidenFirst([]string{"bam", "sam"}, "bam-codec")},
 			{Name: "BIT-CIGAR", What: "CigarOp.Type/Len unpack length<<4|type (bit domain, all values)", Floor: 2, Run: ruleBitCigar},
 			{Name: "TAB-NIBBLE", What: "base code tables are mutually inverse and equal \"=ACMGRSVTWYHKDBN\"; contract/Expand use the high nibble for even positions", Floor: 18, Run: ruleNibble},
 			{Name: "PATH-OMIT", What: "Omit modes: exactly the omitted parts are not decoded", Floor: 1, Run: rulePathOmit},
